@@ -74,6 +74,7 @@ type Contract struct {
 	HasMod         bool
 	Checks         map[string]bool
 	Inline         bool
+	InlineCalls    []string // caller-side: execute the bodies of these callees (lemmas over composed bodies)
 	Trusted        bool // contract is assumed, body not verified (extern / interface / stated)
 	TrustWhy       string
 	Lemma          bool
@@ -408,6 +409,8 @@ func (cs *ContractSet) directive(cur **Contract, body, path string, ln int, pkgP
 		}
 	case "inline":
 		c.Inline = true
+	case "inlinecall":
+		c.InlineCalls = append(c.InlineCalls, strings.Fields(rest)...)
 	case "trusted":
 		c.Trusted = true
 		c.TrustWhy = rest
